@@ -454,7 +454,9 @@ def make_inputs(ctx, base):
     nfiles = 36 if ctx.tier == "quick" else 120
     inputs.append(pack_input(rnd, base, "gen-many-blocks-gzip-4k", 4096, "gzip",
                              [("b/f%03d" % i, blob(rnd, rnd.randint(1, 22000), rnd.choice(["mixed", "text", "rand"])))
-                              for i in range(nfiles)], special))
+                              for i in range(nfiles)],
+                             # `link` is a real hard link (repo fix F05): its target must exist in this input
+                             special[:5] + ["link /hard 0644 0 0 /b/f000"]))
     # H: tar2sqfs with xattrs, hard link, symlink, fifo; zstd
     mem = [dict(name="dir", type="dir"),
            dict(name="dir/file1", data=blob(rnd, 9000, "mixed"), xattrs={"user.a": "1", "user.bb": "x" * 40}, uid=1000, gid=100),
